@@ -159,7 +159,7 @@ pub fn c15_backtrack() {
     let dq = [0.5f64, -1.0];
     let mut work = [0.0f64; 2];
     let a0: f64 = kani::any();
-    kani::assume(a0 > 0.0 && a0 <= 1.0);
+    kani::assume(a0 >= 1e-300 && a0 <= 1.0); // normal range: alpha_init/20 does not underflow
     // alpha_min such that at most 5 reductions happen: step = 0.5, alpha_min = alpha_init/20
     let step = 0.5f64;
     let amin = a0 / 20.0;
